@@ -18,7 +18,7 @@ RULE = ("cases: histories of 1-14 add / remove / replace over a committed pool o
         "from small colliding pools (equal expiries included), idempotent replaces, replaces of absent / unparsable old "
         "fingerprints, unparsable new certificates; SNI probes between the operations and over the whole SNI pool at the "
         "end; a second family exercises the strict-SNI predicate on decorated authorities (port, trailing dot, case, "
-        "IPv6 literal, embedded wildcards); a third the legacy exact predicate authority_matches_sni (the server name, its prefixes and extensions, capitals, port and non-port suffixes). Non-trivial and distinct: >= 2 certificates loaded that share a name, >= 1 "
+        "IPv6 literal, embedded wildcards); real ClientHellos (server name in relative or absolute form, capitals) through MutexCertificateResolver::resolve after some operations and at the end (`hello`); a third the legacy exact predicate authority_matches_sni (the server name, its prefixes and extensions, capitals, port and non-port suffixes). Non-trivial and distinct: >= 2 certificates loaded that share a name, >= 1 "
         "removal or replacement of a loaded certificate, and >= 2 distinct probe answers; distinct by op text.")
 ASSUMPTIONS = [
     "PEM/x509/key parsing and SHA-256 are oracles: operations carry the parsed (fingerprint, names, expiration); the driver checks them against the real parser for every pool certificate",
@@ -27,7 +27,7 @@ ASSUMPTIONS = [
     "HashMap-backed store and index are modelled as association lists with unique keys",
     "the rustls handshake (ResolvesServerCert::resolve glue, default certificate), the https.rs listener glue and the 421 call site of the strict-SNI predicate are exercised by the black-box tiers only (real worker, real handshakes, H1 and H2 requests, counting backend), not by proof",
 ]
-TRUSTED = ["translator props/c17.py:translate reads (by meaning: locals free, comments ignored) the sort direction, the last() choice, the re-pointing, the two short-circuits, the name normalisation and the add-before-remove order in lib/src/tls.rs, and the four parts of the strict-SNI decision in mux/router.rs route_from_request (guard on server name + strict_sni_binding, names -> authority_matched_cert_name, no names -> authority_matches_sni, nothing matched -> SniAuthorityMismatch; hard); unrecognised constructs fall back on the correspondence run (TRANSLATE_FALLBACK), except add-before-remove which nothing observes"]
+TRUSTED = ["translator props/c17.py:translate reads (by meaning: locals free, comments ignored) the sort direction, the last() choice, the re-pointing, the two short-circuits, the name normalisation and the add-before-remove order in lib/src/tls.rs, and the four parts of the strict-SNI decision in mux/router.rs route_from_request (guard on server name + strict_sni_binding, names -> authority_matched_cert_name, no names -> authority_matches_sni, nothing matched -> SniAuthorityMismatch; hard), and the name looked up at the handshake (tls.rs MutexCertificateResolver::resolve: one trailing dot dropped, wild-cards accepted) and for the strict-SNI snapshot (https.rs upgrade_handshake: lower-cased, one trailing dot dropped, names_for_sni; hard); unrecognised constructs fall back on the correspondence run (TRANSLATE_FALLBACK), except add-before-remove which nothing observes"]
 
 MAN = os.path.join(vlib.ROOT, "corpus", "certs", "c17", "manifest.json")
 
@@ -106,6 +106,25 @@ def translate():
        r"authority_matches_sni\(host,\s*(%(W)s)\)\.then_some\(\1\)"], 1)
     F(fails, rfr, "mux/router.rs route_from_request", "nothing matched = the request is refused (SniAuthorityMismatch, answered 421)",
       r"SniAuthorityMismatch", [r"None\s*=>\s*\{.*?return Err\(RetrieveClusterError::SniAuthorityMismatch", r"let Some\(%(W)s\)\s*=\s*%(W)s\s*else\s*\{.*?return Err\(RetrieveClusterError::SniAuthorityMismatch"], 1)
+    # the name looked up at the handshake and for the strict-SNI snapshot (model: conn_name).  resolve() is observed by
+    # the `hello` op (real ClientHello), upgrade_handshake by the black-box tiers only: all hard.
+    m = re.search(r"impl ResolvesServerCert for MutexCertificateResolver \{(.*?)\n\}", t, re.S)
+    res = TU.fn_body(m.group(1), "resolve") if m else None
+    F(fails, res, "tls.rs MutexCertificateResolver::resolve", "one trailing dot of the server name is dropped before the lookup (absolute form)",
+      r"strip_suffix\(|trim_end_matches\(|ends_with\('\.'\)", [r"let\s+(%(W)s)\s*=\s*\1\.strip_suffix\('\.'\)\.unwrap_or\(\1\)"], 1)
+    F(fails, res, "tls.rs MutexCertificateResolver::resolve", "the name is looked up accepting wild-cards", r"domain_lookup\(",
+      [r"domain_lookup\(%(W)s\.as_bytes\(\),\s*true\)"], 1)
+    try:
+        ht = TU.strip(open(os.path.join(vlib.REPO, "lib/src/https.rs")).read())
+    except OSError as ex:
+        return fails + ["lib/src/https.rs cannot be read: %r" % (ex,)]
+    up = TU.fn_body(ht, "upgrade_handshake")
+    F(fails, up, "https.rs upgrade_handshake", "the session's server name is lower-cased", r"\.server_name\(\)",
+      [r"\.server_name\(\)\s*\.map\(\|(%(W)s)\|\s*\1\.to_ascii_lowercase\(\)\)"], 1)
+    F(fails, up, "https.rs upgrade_handshake", "one trailing dot is dropped from the server name (and from the snapshot's names)",
+      r"ends_with\('\.'\)|strip_suffix\('\.'\)", [r"if\s+(%(W)s)\.ends_with\('\.'\)\s*\{\s*\1\.pop\(\);\s*\}"], 2)
+    F(fails, up, "https.rs upgrade_handshake", "the strict-SNI snapshot is names_for_sni of that name", r"names_for_sni\(",
+      [r"\.names_for_sni\(%(W)s\.as_bytes\(\)\)"], 1)
     # NOT observable (both orders reach the same final state): add-before-remove inside replace_certificate. Read by
     # position of the two calls (public method names); hard when it cannot be read.
     if rep is not None:
@@ -218,6 +237,22 @@ def auth_case(rng, cid):
     return Case(cid, ops, dict(family="auth"))
 
 
+def with_hello(rng, c):
+    """real ClientHellos through MutexCertificateResolver::resolve: the server name as a peer may write it on the
+    wire -- relative or absolute form (trailing dot), capitals -- after some operations and at the end"""
+    def variants(n):
+        return rng.choice([n, n + b".", n + b".", n.upper(), n.upper() + b"."])
+    ops = []
+    for op in c.ops:
+        ops.append(op)
+        if op[0] in ("add", "del", "rep") and rng.random() < 0.3:
+            ops.append(["hello", variants(rng.choice(SNIS))])
+    for n in rng.sample(SNIS, 5) + (IDN_SNIS[:2] if c.tags.get("family") == "idn" else []):
+        ops.append(["hello", variants(n)])
+    c.ops = ops
+    return c
+
+
 AUTHSNI_HOSTS = AUTH_HOSTS + [b"a.co", b"a.com.evil.org", b"a.comx", b"xa.com", b"A.COM", b"[::1]:8443", b"[::1"]
 AUTHSNI_SNIS = [b"a.com", b"x.a.com", b"b.com", b"a.co", b"a.com.evil.org", b"[::1]", b"", b"com", b"a.com.", b"x.y.a.com", b"A.com"]
 
@@ -251,7 +286,7 @@ def gen_cases(rng, tier):
             out.append(auth_case(rng, "a%d" % i))
         else:
             out.append(authsni_case(rng, "s%d" % i))
-    return out
+    return [with_hello(rng, c) if c.tags.get("family") in ("plain", "odd", "case", "idn") else c for c in out]
 
 
 SNI_REQ_SNIS = [b"a.com", b"www.a.com", b"x.a.com", b"q.a.com", b"b.com", b"w.b.com", b"c.org", b"d.org"]
@@ -283,7 +318,8 @@ def strict_sni_case(rng, cid):
 def extra_stage(tier, rng, work):
     """black-box tier: the same histories through a real worker (command channel) and real TLS handshakes"""
     n = {"quick": 60, "thorough": 1500}.get(tier, 60)
-    cases = [c for c in corpus_cases() if not all(op[0] in ("auth", "authsni") for op in c.ops)] + [history_case(rng, "bb%d" % i, ("plain", "case", "idn", "plain")[i % 4]) for i in range(n)]
+    cases = [c for c in corpus_cases() if not all(op[0] in ("auth", "authsni") for op in c.ops)] + [(with_hello(rng, history_case(rng, "bb%d" % i, ("plain", "case", "idn", "plain")[i % 4])) if i % 3 == 0 else
+                         history_case(rng, "bb%d" % i, ("plain", "case", "idn", "plain")[i % 4])) for i in range(n)]
     outs, problems = vlib.run_harness("c17bb", cases, os.path.join(work, "bb"), "release", shards=4, timeout=1200)
     viols, handshakes, missing = [], 0, 0
     for c in cases:
